@@ -30,7 +30,7 @@ import numpy as np
 from harness import common
 
 LEVEL = "model_checking"
-WATCHDOG = 45.0          # a normal run takes < 2 s
+WATCHDOG = 150.0         # a normal run takes < 2 s on an idle machine; generous so that a loaded machine cannot produce a "blocked" verdict
 CHILD = os.path.join(os.path.dirname(os.path.abspath(__file__)), "bane_child.py")
 FIXES = {"FixPool": True, "FixNoReset": True, "FixAbort": True, "FixOverlap": True}
 
@@ -109,7 +109,7 @@ def run_bane(ctx, name, spec, sched=None, fault=None):
         with open(os.path.join(d, "fault"), "w") as f:
             f.write("%d %s" % (fault[0], fault[1]))
     env = dict(os.environ, AEGEAN_VERIF="1", AEGEAN_VERIF_DIR=d, PYTHONPATH=common.REPO,
-               AEGEAN_VERIF_GATE_TIMEOUT="30")
+               AEGEAN_VERIF_GATE_TIMEOUT="60")
     t0 = time.time()
     proc = subprocess.Popen(["/venv/bin/python", "-W", "ignore", CHILD, json.dumps(spec)], env=env,
                             stdout=subprocess.PIPE, stderr=subprocess.DEVNULL, start_new_session=True)
